@@ -44,6 +44,16 @@ func (e *Exec) callObjMethod(g *G, f *objMethod, args []Value) Value {
 		case "Value":
 			return Iface{}
 		case "Deadline":
+			for c := o; c != nil; {
+				if _, ok := c.Attrs["timeout"]; ok {
+					return Tuple{e.zeroTime(), tt.True}
+				}
+				pi, ok := c.Attrs["parent"].(Iface)
+				if !ok {
+					break
+				}
+				c, _ = pi.V.(*GoObj)
+			}
 			return Tuple{e.zeroTime(), tt.False}
 		}
 	}
